@@ -213,20 +213,21 @@ def check_proj(run, S, name, spec, kw):
     # every panic is justified by a documented precondition violated on its path (no rejection beyond the documented ones)
     for pi, (guards, leaf) in enumerate([(g_, l) for g_, l in ls if l['k'] == 'panic']):
         cons = [c for c in (constraint(S, cv, g_) for g_ in guards) if c is not None]
+        allc = cons
         just = False
         for label, x, y, forb in single:
             for c in cons:
                 m = match(c, x, y)
-                if m is not None and (m & (frozenset(forb) | frozenset(['un']))):
-                    just = True         # ('un': a NaN operand never satisfies the required relation)
+                if m is not None and m and m <= (frozenset(forb) | frozenset(['un'])):
+                    just = True         # the path ESTABLISHED a forbidden relation ('un': a NaN operand never satisfies the required one)
         for alts in either:
             for c in cons:
                 for x, y, al in alts:
                     m = match(c, x, y)
-                    if m is not None and not (m <= al):
+                    if m is not None and m and not (m & al):
                         just = True
         run.ob('%s:panic%d:justified' % (key, pi), just, rule='K5 guard pass-set', expected='a rejection only where a documented precondition fails on the path (no precondition beyond the documented ones)',
-               found=[c[4] for c in cons][-4:], where=where)
+               found=[c[4] for c in allc][-4:], where=where)
     # every other leaf panics
     others = sorted({l['k'] for g_, l in ls if l['k'] != 'ret'})
     if which != 'ortho':
